@@ -158,3 +158,17 @@ func (f *Frame) sendAsserts(instr ssa.Instruction, ch, val ssa.Value, reach stri
 		f.oblig("assert", instr.Pos(), fmt.Sprintf("at send: %s", a.Text), reach, g)
 	}
 }
+
+// countSend: with a declared `ghost heap chanSent ptr int`, the number of values this goroutine
+// has sent on each channel: a send statement adds one; a select adds one to the channel of the
+// send case that is taken (taken is the condition "this case was chosen").
+func (f *Frame) countSend(ch ssa.Value, taken string, st *State) {
+	if _, ok := ghostHeaps["chanSent"]; !ok {
+		return
+	}
+	h := f.heap(st, "G_chanSent")
+	nh := f.ctx.Fresh("chanSent", heapSort("G_chanSent"))
+	c := f.val(ch)
+	f.ctx.Fact(fmt.Sprintf("(= %s (ite %s (store %s %s (+ (select %s %s) 1)) %s))", nh, taken, h, c, h, c, h))
+	st.heaps["G_chanSent"] = nh
+}
